@@ -12,10 +12,9 @@ def run(ctx):
     b = ctx.build("c18", "c18.cpp")
     if b:
         tr = ctx.scratch.path("c18.ndjson")
-        rc, out = ctx.run(b, [tr, pairs, ctx.tier])
-        if rc != 0:
-            raise vlib.Infra("c18 harness failed rc=%d: %s" % (rc, out[-2000:]))
-        ctx.validate(TRACE_MODULE, tr, label="pure")
+        ok, out = ctx.run_harness(b, [tr, pairs, ctx.tier], tr)
+        if ok:
+            ctx.validate(TRACE_MODULE, tr, label="pure")
     ctx.rule("8-bit types exhaustively (16-bit in the thorough tier) through every scalar and vector overload of the power-of-two, multiple, "
              "findNSB, rotate, fill, mask, gtx/bit functions, crossed with multiples / shift counts / (first,count) pairs from the spec's "
              "FieldOK domain; 32/64-bit structured + random; every interleave overload on single-bit, complement and random operands; "
